@@ -20,14 +20,15 @@
    nvm.runFunc.  The machine therefore has a stack of suspended VMs (souter):
    the calling VM waits inside its OpCallNative until the new VM has finished.
    What the closure does with the error of runFunc is written from the code:
-   nil - the native function returns and the caller goes on; a PanicError - it
-   panics with a fatalError whose message is the text of the chain, which
-   convertPanic of every VM below returns as it is, so that VM.Run panics with
-   that text; any other error (the stopError of env.Stop, the fatalError of
-   env.Fatal) - it panics with the error itself (it wraps only the error of
-   the context in a stopError), and convertPanic of the VMs below returns it
-   as it is: Run returns the error given to Stop / panics with the value given
-   to Fatal exactly as without the callback. *)
+   nil - the native function returns and the caller goes on; any error - it
+   panics with the error itself (it wraps only the error of the context in a
+   stopError).  A PanicError goes through the native function; runRecoverable
+   of the calling VM recovers it, convertPanic returns it as it is and runFunc
+   links the panics of the calling VM after its last record: the calling
+   function panics with the panics of the callback, at its call instruction.
+   The stopError of env.Stop and the fatalError of env.Fatal are returned as
+   they are by convertPanic of every VM below: Run returns the error given to
+   Stop / panics with the value given to Fatal exactly as without the callback. *)
 From Coq Require Import List NArith Bool Arith.
 Import ListNotations.
 
@@ -56,27 +57,32 @@ Inductive instr :=
 
 Record func := mkfunc { fbody : list instr; finfo : list (nat * N) }.
 
-Inductive callee := CFn (f : func) | CNat (k : natk).
+(* what a call frame holds: a Scriggo function, a native function, or nothing
+   (callable{fn: vm.fn} with vm.fn nil: the frame runFunc pushes for a panic
+   raised by a deferred native function called while vm.fn is nil) *)
+Inductive callee := CFn (f : func) | CNat (k : natk) | CNone.
 
 Record frame := mkframe { fcl : callee; fpc : nat; fstat : status }.
 
-(* one PanicError: message, recovered flag, source line (None: path "" and
-   position 0:0), serial number of raising (ghost: only the theorems use it) *)
-Record prec := mkprec { pmsg : N; precovered : bool; ppos : option N; pser : N }.
+(* one PanicError: message, recovered flag, aborted flag (not visible through
+   the accessors of PanicError), source line (None: path "" and position 0:0),
+   serial number of raising (ghost: only the theorems use it) *)
+Record prec := mkprec { pmsg : N; precovered : bool; paborted : bool; ppos : option N; pser : N }.
+
+Definition set_aborted (p : prec) : prec := mkprec (pmsg p) (precovered p) true (ppos p) (pser p).
 
 Inductive event := EBody (n : N) | ERecover (v : option N) | EStop (e : N) | EFatal (v : N).
 
 (* what VM.Run does: returns nil / returns the PanicError chain (newest
    first: message, recovered, line) / returns the error given to Stop /
-   panics with a value (the argument of Fatal, or a native panic wrapped in a
-   fatalError) / panics with a Go runtime error (a crash of the VM itself) *)
+   panics with a value (the argument of Fatal) / panics with a Go runtime
+   error (a crash of the VM itself) *)
 Inductive outcome :=
 | ONil
 | OPanic (chain : list (N * bool * option N))
 | OStop (e : N)
 | ORunPanics (v : N)
-| OCrash
-| OCbPanic (chain : list (N * bool)).   (* Run panics with the text of the chain of a panic that left a callback (newest first: message, recovered) *)
+| OCrash.
 
 Inductive mode := MExec | MNext (i1 : nat).   (* MNext (S i): the loop of nextCall is at index i; MNext 0: it has finished (returns false) *)
 
@@ -122,22 +128,31 @@ Fixpoint info_get (l : list (nat * N)) (pc : nat) : option N :=
 Definition chain_view (c : list prec) : list (N * bool * option N) :=
   map (fun p => (pmsg p, precovered p, ppos p)) c.
 
-Definition cb_view (c : list prec) : list (N * bool) :=
-  map (fun p => (pmsg p, precovered p)) c.
-
 (* the suspended VM sv goes on after its native call: the callback returned nil *)
 Definition resume (sv : saved) (rest : list saved) (s : state) : state :=
   mkstate MExec (Some (vfn sv)) (vpc sv) (vcalls sv) (vchain sv) (str s) (sraised s) rest.
 
 (* runFunc returns vm.panic (chain is not empty).  In the main VM it is what
-   Run returns; in the VM of a callback the closure of callable.Value turns it
-   into a fatalError with the text of the chain: every VM below passes it on
-   and Run panics with the text *)
-Definition end_panic (s : state) (chain : list prec) : sres :=
-  match souter s with
-  | [] => Fin (OPanic (chain_view chain)) (str s)
-  | _ :: _ => Fin (OCbPanic (cb_view chain)) (str s)
+   Run returns.  In the VM of a callback the closure of callable.Value panics
+   with it; the calling VM sv (suspended in its call instruction) recovers it,
+   links its own chain after the last record and, as for any panic, ends if it
+   has no call frame (then the same happens in the VM that waits for it) or
+   pushes a panicked frame holding its function and goes on with nextCall. *)
+Fixpoint end_panic_out (outer : list saved) (chain : list prec) (tr : list event) (raised : N) : sres :=
+  match outer with
+  | [] => Fin (OPanic (chain_view chain)) tr
+  | sv :: rest =>
+      let chain' := chain ++ vchain sv in
+      match vcalls sv with
+      | [] => end_panic_out rest chain' tr raised
+      | _ =>
+          let calls' := vcalls sv ++ [mkframe (CFn (vfn sv)) 0 Panicked] in
+          Next (mkstate (MNext (length calls')) None (vpc sv) calls' chain' tr raised rest)
+      end
   end.
+
+Definition end_panic (s : state) (chain : list prec) : sres :=
+  end_panic_out (souter s) chain (str s) (sraised s).
 
 (* end of runFunc: the loop was left without an error *)
 Definition finish (s : state) : sres :=
@@ -150,45 +165,102 @@ Definition finish (s : state) : sres :=
   | c => end_panic s c
   end.
 
-Definition count_panicked (c : list frame) : nat :=
-  length (filter (fun fr => status_eqb (fstat fr) Panicked) c).
+(* nextCall, case recovered (the deferred call that recovered has returned):
+   vm.panic = vm.panic.next, then the aborted panics that follow are dropped;
+   None: vm.panic is nil (nil pointer dereference) *)
+Fixpoint drop_ab (c : list prec) : list prec :=
+  match c with
+  | p :: r => if paborted p then drop_ab r else c
+  | [] => []
+  end.
 
-(* nextCall, case recovered: drop from vm.panic until as many are left as there are panicked frames *)
-Definition trim (s : state) : state :=
-  set_chain s (skipn (length (schain s) - count_panicked (scalls s)) (schain s)).
+Definition trim (s : state) : option state :=
+  match schain s with
+  | [] => None
+  | _ :: r => Some (set_chain s (drop_ab r))
+  end.
 
-(* a native function called by nextCall (a deferred native call); k is what follows *)
+
+(* nextCall, case panicked.  The pointer p walks along vm.panic: for every
+   panicked or recovered frame that the search leaves behind,
+   `for p = p.next; p.aborted; p = p.next {}` then `p.aborted = true`.
+   mark_next post: post are the records after p; the result is the records
+   up to the new p (the last one, now aborted) and the records after it;
+   None: p runs off the end of the chain (nil pointer dereference). *)
+Fixpoint mark_next (post : list prec) : option (list prec * list prec) :=
+  match post with
+  | [] => None
+  | q :: r =>
+      if paborted q then
+        match mark_next r with
+        | Some (done, rest) => Some (q :: done, rest)
+        | None => None
+        end
+      else Some ([set_aborted q], r)
+  end.
+
+(* the search of the nearest deferred frame below index i; the chain is
+   pre ++ post, p is the last record of pre (pre is empty when vm.panic is nil).
+   Result: the frame found (or none) and the chain with the marks; None: a
+   nil pointer dereference or an index out of range *)
+Fixpoint scan_panicked (c : list frame) (i : nat) (pre post : list prec)
+    : option (option (nat * frame) * list prec) :=
+  match i with
+  | O => Some (None, pre ++ post)
+  | S j =>
+      match nth_error c j with
+      | None => None
+      | Some fr =>
+          match fstat fr with
+          | Deferred => Some (Some (j, fr), pre ++ post)
+          | Panicked | Recovered =>
+              match mark_next post with
+              | Some (done, rest) => scan_panicked c j (pre ++ done) rest
+              | None => None
+              end
+          | _ => scan_panicked c j pre post
+          end
+      end
+  end.
+
+Definition chain_split (c : list prec) : list prec * list prec :=
+  match c with
+  | [] => ([], [])
+  | p :: r => ([p], r)
+  end.
+
+(* runFunc after runRecoverable returned a new PanicError: it is linked before
+   vm.panic; with no call frame left runFunc ends, otherwise a panicked frame
+   holding vm.fn is pushed, vm.fn becomes nil and nextCall goes on from it *)
+Definition raise_with (s : state) (owner : callee) (line : option N) (v : N) : sres :=
+  let p := mkprec v false false line (sraised s) in
+  let chain' := p :: schain s in
+  match scalls s with
+  | [] => end_panic_out (souter s) chain' (str s) (N.succ (sraised s))
+  | _ =>
+      let calls' := scalls s ++ [mkframe owner 0 Panicked] in
+      Next (mkstate (MNext (length calls')) None (spc s) calls' chain' (str s) (N.succ (sraised s)) (souter s))
+  end.
+
+(* a native function called by nextCall (a deferred native call); k is what
+   follows.  A panic of the function is recovered by runRecoverable and
+   converted by convertPanic as the panic of a native call; newPanic gives it
+   no position (vm.fn is nil, or the instruction at vm.pc-1 is the Return) *)
 Definition native_in_next (nk : natk) (s : state) (k : state -> sres) : sres :=
   match nk with
   | NBody n => k (emit s (EBody n))
   | NStop e => Fin (OStop e) (EStop e :: str s)
   | NFatal v => Fin (ORunPanics v) (EFatal v :: str s)
-  | NPanic v =>
-      (* convertPanic: with vm.fn nil it dereferences nil inside the deferred
-         function of runRecoverable; otherwise the instruction at pc-1 is the
-         Return and the value is wrapped in a fatalError *)
-      match sfn s with
-      | None => Fin OCrash (str s)
-      | Some _ => Fin (ORunPanics v) (str s)
-      end
+  | NPanic v => raise_with s (match sfn s with Some f => CFn f | None => CNone end) None v
   end.
 
-(* the part of nextCall after its switch: `if i >= 0 { ... }` followed by the loop's i-- *)
+(* the part of nextCall after its switch: `if i >= 0 { ... }` followed by the
+   loop's i--; vm.calls is cut at i before the callee runs *)
 Definition after_switch (s : state) (call : frame) (i : nat) : sres :=
   match fcl call with
   | CFn f => Next (mkstate MExec (Some f) (fpc call) (firstn i (scalls s)) (schain s) (str s) (sraised s) (souter s))
-  | CNat nk => native_in_next nk s (fun s' => Next (set_mode s' (MNext i)))
-  end.
-
-(* nextCall, case panicked: the nearest deferred frame below index i *)
-Fixpoint find_deferred_below (c : list frame) (i : nat) : option (nat * frame) :=
-  match i with
-  | O => None
-  | S j =>
-      match nth_error c j with
-      | Some d => if status_eqb (fstat d) Deferred then Some (j, d) else find_deferred_below c j
-      | None => None
-      end
+  | CNat nk => native_in_next nk (set_calls s (firstn i (scalls s))) (fun s' => Next (set_mode s' (MNext i)))
+  | CNone => Fin OCrash (str s)      (* callNative of a nil native function *)
   end.
 
 Definition prev_deferred (c : list frame) (i : nat) : option (nat * frame) :=
@@ -217,24 +289,32 @@ Definition step_next (s : state) (i : nat) : sres :=
               after_switch s1 call (S i)
           end
       | Returned | Recovered =>
-          match prev_deferred (scalls s) i with
-          | Some (j, prev) =>
-              let s1 := set_calls s (set_nth (scalls s) j call) in
-              after_switch s1 prev i
-          | None =>
-              let s1 := if status_eqb (fstat call) Recovered then trim s else s in
-              Next (set_mode s1 (MNext i))
+          (* a recovered frame: the deferred call that recovered has returned, the
+             recovered panic leaves the chain and the local copy of the frame
+             becomes a returned one, before the next deferred call is looked for *)
+          let rec := status_eqb (fstat call) Recovered in
+          match (if rec then trim s else Some s) with
+          | None => Fin OCrash (str s)
+          | Some s0 =>
+              let call' := if rec then set_status call Returned else call in
+              match prev_deferred (scalls s0) i with
+              | Some (j, prev) =>
+                  let s1 := set_calls s0 (set_nth (scalls s0) j call') in
+                  after_switch s1 prev i
+              | None => Next (set_mode s0 (MNext i))
+              end
           end
       | Panicked =>
-          match find_deferred_below (scalls s) i with
-          | Some (j, d) =>
+          match scan_panicked (scalls s) i (fst (chain_split (schain s))) (snd (chain_split (schain s))) with
+          | None => Fin OCrash (str s)
+          | Some (Some (j, d), chain') =>
               match nth_error (scalls s) (S j) with
               | Some above =>
-                  let s1 := set_calls s (set_nth (scalls s) j (set_status above Panicked)) in
+                  let s1 := set_chain (set_calls s (set_nth (scalls s) j (set_status above Panicked))) chain' in
                   after_switch s1 d (S j)
               | None => Fin OCrash (str s)
               end
-          | None => Next (set_mode s (MNext 0))
+          | Some (None, chain') => Next (set_mode (set_chain s chain') (MNext 0))
           end
       end
   end.
@@ -290,29 +370,22 @@ Definition do_recover (s : state) (down : bool) : sres :=
           | [] => Fin OCrash (str s)            (* vm.panic.recovered with vm.panic == nil *)
           | p :: ps =>
               let s1 := set_calls s (mark_recovered (scalls s) i) in
-              let s2 := set_chain s1 (mkprec (pmsg p) true (ppos p) (pser p) :: ps) in
+              let s2 := set_chain s1 (mkprec (pmsg p) true (paborted p) (ppos p) (pser p) :: ps) in
               Next (emit_rec s2 down (Some (pmsg p)))
           end
       end
   end.
 
 (* OpPanic, or a panic raised by a native function called with OpCallNative:
-   runRecoverable recovers it, convertPanic/newPanic build the PanicError,
-   runFunc links it and pushes a panicked frame.  pc0 is the address of the
-   instruction (vm.pc is pc0+1). *)
+   runRecoverable recovers it, convertPanic/newPanic build the PanicError with
+   the debug information of the instruction (when it has none, the one of the
+   following instruction).  pc0 is the address of the instruction (vm.pc is pc0+1). *)
 Definition raise (s : state) (f : func) (pc0 : nat) (v : N) : sres :=
   let line := match info_get (finfo f) pc0 with
               | Some l => Some l
               | None => info_get (finfo f) (S pc0)
               end in
-  let p := mkprec v false line (sraised s) in
-  let chain' := p :: schain s in
-  match scalls s with
-  | [] => end_panic s chain'
-  | _ =>
-      let calls' := scalls s ++ [mkframe (CFn f) 0 Panicked] in
-      Next (mkstate (MNext (length calls')) None (spc s) calls' chain' (str s) (N.succ (sraised s)) (souter s))
-  end.
+  raise_with s (CFn f) line v.
 
 Definition fetch (f : func) (pc : nat) : option instr := nth_error (fbody f ++ [IReturn]) pc.
 
@@ -351,7 +424,7 @@ Definition step_exec (s : state) : sres :=
                       if status_eqb (fstat call) Started then
                         match fcl call with
                         | CFn g => Next (mkstate MExec (Some g) (fpc call) (firstn i (scalls s)) (schain s) (str s) (sraised s) (souter s))
-                        | CNat _ => Next (mkstate MExec None (fpc call) (firstn i (scalls s)) (schain s) (str s) (sraised s) (souter s))
+                        | CNat _ | CNone => Next (mkstate MExec None (fpc call) (firstn i (scalls s)) (schain s) (str s) (sraised s) (souter s))
                         end
                       else Next (set_mode s (MNext (S i)))
                   end
@@ -392,18 +465,14 @@ Definition vm_run (n : nat) (f : func) : option (outcome * list event) := run n 
 
 Record grec := mkgrec { gmsg : N; grecovered : bool; gaborted : bool; gpos : option N }.
 
-(* gstale, gdrop: set when the run meets the trigger of the known findings
-   recovered-panic-stays-in-chain (a deferred call panics after a recovery in
-   the same activation) and nested-recover-drops-active-panic (a recovery while
-   an aborted panic is still listed); they do not influence the semantics. *)
-Record gst := mkgst { gtr : list event; gpan : list grec; gstale : bool; gdrop : bool }.
+Record gst := mkgst { gtr : list event; gpan : list grec }.
 
 Inductive gres := GNormal (g : gst) | GPanicking (g : gst) | GExit (o : outcome) (tr : list event) | GFuel.
 
-Definition gemit (g : gst) (e : event) : gst := mkgst (e :: gtr g) (gpan g) (gstale g) (gdrop g).
+Definition gemit (g : gst) (e : event) : gst := mkgst (e :: gtr g) (gpan g).
 Definition gpush (g : gst) (v : N) (line : option N) : gst :=
-  mkgst (gtr g) (mkgrec v false false line :: gpan g) (gstale g) (gdrop g).
-Definition gset_pan (g : gst) (l : list grec) : gst := mkgst (gtr g) l (gstale g) (gdrop g).
+  mkgst (gtr g) (mkgrec v false false line :: gpan g).
+Definition gset_pan (g : gst) (l : list grec) : gst := mkgst (gtr g) l.
 
 Fixpoint drop_aborted (l : list grec) : list grec :=
   match l with
@@ -434,7 +503,7 @@ Definition grecover (g : gst) (down ok : bool) : gst :=
 (* the deferred calls ds of an activation (last registered first); rec runs a
    callee; by_panic is the flag of the activation that runs them *)
 Fixpoint g_rundefers (rec : func -> bool -> bool -> gst -> gres) (by_panic : bool)
-    (ds : list callee) (panicking after_rec : bool) (g : gst) {struct ds} : gres :=
+    (ds : list callee) (panicking : bool) (g : gst) {struct ds} : gres :=
   match ds with
   | [] => if panicking then GPanicking g else GNormal g
   | d :: ds' =>
@@ -444,6 +513,7 @@ Fixpoint g_rundefers (rec : func -> bool -> bool -> gst -> gres) (by_panic : boo
                | CNat (NStop e) => GExit (OStop e) (EStop e :: gtr g)
                | CNat (NFatal v) => GExit (ORunPanics v) (EFatal v :: gtr g)
                | CNat (NPanic v) => GPanicking (gpush g v None)
+               | CNone => GNormal g      (* never deferred *)
                | CFn h => rec h panicking by_panic g
                end in
       match r with
@@ -452,18 +522,16 @@ Fixpoint g_rundefers (rec : func -> bool -> bool -> gst -> gres) (by_panic : boo
             match gpan g' with
             | p :: ps =>
                 if grecovered p then
-                  g_rundefers rec by_panic ds' false true
-                    (mkgst (gtr g') (drop_aborted ps) (gstale g') (gdrop g' || existsb gaborted ps))
-                else g_rundefers rec by_panic ds' true after_rec g'
-            | [] => g_rundefers rec by_panic ds' false after_rec g'
+                  g_rundefers rec by_panic ds' false (gset_pan g' (drop_aborted ps))
+                else g_rundefers rec by_panic ds' true g'
+            | [] => g_rundefers rec by_panic ds' false g'
             end
-          else g_rundefers rec by_panic ds' false after_rec g'
+          else g_rundefers rec by_panic ds' false g'
       | GPanicking g' =>
           let g'' := if panicking
                      then gset_pan g' (mark_aborted (gpan g') (length (gpan g') - n0))
                      else g' in
-          g_rundefers rec by_panic ds' true after_rec
-            (mkgst (gtr g'') (gpan g'') (gstale g'' || after_rec) (gdrop g''))
+          g_rundefers rec by_panic ds' true g''
       | other => other
       end
   end.
@@ -472,25 +540,25 @@ Fixpoint g_rundefers (rec : func -> bool -> bool -> gst -> gres) (by_panic : boo
 Fixpoint g_body (rec : func -> bool -> bool -> gst -> gres) (f : func) (by_panic parent_by_panic : bool)
     (b : list instr) (pc : nat) (ds : list callee) (g : gst) {struct b} : gres :=
   match b with
-  | [] => g_rundefers rec by_panic ds false false g
+  | [] => g_rundefers rec by_panic ds false g
   | ins :: r =>
       match ins with
       | INat (NBody n) => g_body rec f by_panic parent_by_panic r (S pc) ds (gemit g (EBody n))
       | INat (NStop e) => GExit (OStop e) (EStop e :: gtr g)
       | INat (NFatal v) => GExit (ORunPanics v) (EFatal v :: gtr g)
-      | INat (NPanic v) => g_rundefers rec by_panic ds true false (gpush g v (info_get (finfo f) pc))
-      | IPanic v => g_rundefers rec by_panic ds true false (gpush g v (info_get (finfo f) pc))
+      | INat (NPanic v) => g_rundefers rec by_panic ds true (gpush g v (info_get (finfo f) pc))
+      | IPanic v => g_rundefers rec by_panic ds true (gpush g v (info_get (finfo f) pc))
       | ICall b' inf =>
           match rec (mkfunc b' inf) false false g with
           | GNormal g' => g_body rec f by_panic parent_by_panic r (S pc) ds g'
-          | GPanicking g' => g_rundefers rec by_panic ds true false g'
+          | GPanicking g' => g_rundefers rec by_panic ds true g'
           | other => other
           end
       | ICallback b' inf =>
           (* in Go the native function is an ordinary frame between the two: the same as a call *)
           match rec (mkfunc b' inf) false false g with
           | GNormal g' => g_body rec f by_panic parent_by_panic r (S pc) ds g'
-          | GPanicking g' => g_rundefers rec by_panic ds true false g'
+          | GPanicking g' => g_rundefers rec by_panic ds true g'
           | other => other
           end
       | IDeferFn b' inf => g_body rec f by_panic parent_by_panic r (S pc) (CFn (mkfunc b' inf) :: ds) g
@@ -498,7 +566,7 @@ Fixpoint g_body (rec : func -> bool -> bool -> gst -> gres) (f : func) (by_panic
       | IRecover down =>
           let ok := if down then negb by_panic && parent_by_panic else by_panic in
           g_body rec f by_panic parent_by_panic r (S pc) ds (grecover g down ok)
-      | IReturn => g_rundefers rec by_panic ds false false g
+      | IReturn => g_rundefers rec by_panic ds false g
       end
   end.
 
@@ -508,18 +576,11 @@ Fixpoint gfn (fuel : nat) (f : func) (by_panic parent_by_panic : bool) (g : gst)
   | S fuel' => g_body (gfn fuel') f by_panic parent_by_panic (fbody f) 0 [] g
   end.
 
-(* the two trigger flags of a run (false, false when out of fuel) *)
-Definition go_flags (fuel : nat) (f : func) : bool * bool :=
-  match gfn fuel f false false (mkgst [] [] false false) with
-  | GNormal g | GPanicking g => (gstale g, gdrop g)
-  | _ => (false, false)
-  end.
-
 Definition gchain_view (l : list grec) : list (N * bool * option N) :=
   map (fun p => (gmsg p, grecovered p, gpos p)) l.
 
 Definition go_run (fuel : nat) (f : func) : option (outcome * list event) :=
-  match gfn fuel f false false (mkgst [] [] false false) with
+  match gfn fuel f false false (mkgst [] []) with
   | GNormal g => Some (ONil, rev (gtr g))
   | GPanicking g => Some (OPanic (gchain_view (gpan g)), rev (gtr g))
   | GExit o tr => Some (o, rev tr)
